@@ -6,8 +6,10 @@
    is at least the radius (locate's own formula), so the start window is inside the
    image; shift-and-clip keeps every visited window inside (C07: ref_loop_inv); the
    reported position is the brightness centroid of the last evaluated window (or its
-   centre when the window is dark), which for non-negative pixels lies in the window;
-   the tail only removes rows (C08: tail_output_ok). *)
+   centre when the window is dark), which for non-negative pixels lies in the window
+   -- and locate clips the image at zero before all this (7e846f3, F18), so the pixels
+   are non-negative for every integer image; the tail only removes rows (C08:
+   tail_output_ok). *)
 From Coq Require Import ZArith QArith Qround List Bool Arith Lia Lqa.
 From TP Require Import Model.Dilation Model.COM Model.LocateTail Model.LocateTailSpec Model.LocatePipe.
 From TP Require Proofs.Dilation Proofs.COM Proofs.LocateTail.
@@ -215,41 +217,41 @@ Section Locate.
   Variable percentile : list Z -> Q.
   Variable sqrtf : Q -> Q.
 
-  Lemma refine_one_is_python : forall L im p o,
+  Lemma refine_one_is_python : forall L im raw p o,
     (l_numba L = true -> (2 <= length (l_radius L))%nat /\ Forall (fun r => 1 <= r) (l_radius L)) ->
-    refine_one L im p = Some o ->
-    o = refine_python (pix im) (pix im) (l_radius L) (shape im) shift_thresh (l_maxit L) (l_char L) p.
+    refine_one L im raw p = Some o ->
+    o = refine_python (pix im) (pix raw) (l_radius L) (shape im) shift_thresh (l_maxit L) (l_char L) p.
   Proof.
-    intros L im p o Hn H. unfold refine_one in H. destruct (l_numba L).
+    intros L im raw p o Hn H. unfold refine_one in H. destruct (l_numba L).
     - destruct (Hn eq_refl) as [H2 H1].
       rewrite (Proofs.COM.engines_agree _ _ _ _ _ _ _ _ shift_thresh_nonneg H2 H1) in H.
       destruct (ref_nonzero _ _ _ _ _ _ _); [|discriminate]. now injection H as <-.
     - now injection H as <-.
   Qed.
 
-  Theorem locate_inside_image : forall L im out,
+  Theorem locate_on_inside_image : forall L im raw out,
     (forall p, 0 <= pix im p) ->
     Forall (fun r => 0 <= r) (l_radius L) ->
     length (l_radius L) = length (shape im) ->
     length (l_sep L) = length (shape im) -> length (l_smooth L) = length (shape im) ->
     (l_numba L = true -> (2 <= length (l_radius L))%nat /\ Forall (fun r => 1 <= r) (l_radius L)) ->
-    locate percentile sqrtf L im = Some out ->
+    locate_on percentile sqrtf L im raw = Some out ->
     Forall (fun x => in_a_window (l_radius L) (shape im) (r_pos (snd (fst x))) /\
                      inside_image (map inject_Z (shape im)) (r_pos (snd (fst x)))) out.
   Proof.
-    intros L im out Hpix Hr Lr Ls Lm Hn H. unfold locate in H.
+    intros L im raw out Hpix Hr Lr Ls Lm Hn H. unfold locate_on in H.
     destruct (negb (isotropic (l_radius L)) && is_some (l_maxsize L)); [discriminate|].
-    destruct (all_some (map (refine_one L im) (maxima percentile L im))) as [outs|] eqn:E; [|discriminate].
+    destruct (all_some (map (refine_one L im raw) (maxima percentile L im))) as [outs|] eqn:E; [|discriminate].
     apply all_some_spec in E.
     assert (Hin : forall r, In r (map (row_of sqrtf) outs) -> in_a_window (l_radius L) (shape im) (r_pos r)).
     { intros r Hrw. apply in_map_iff in Hrw. destruct Hrw as [o [<- Ho]]. cbn [row_of r_pos].
-      assert (Ho' : In (Some o) (map (refine_one L im) (maxima percentile L im)))
+      assert (Ho' : In (Some o) (map (refine_one L im raw) (maxima percentile L im)))
         by (rewrite E; now apply in_map).
       apply in_map_iff in Ho'. destruct Ho' as [p [Hp Hmax]].
       apply refine_one_is_python in Hp; [|exact Hn]. subst o.
       destruct (maxima_start_window percentile L im p Lr Ls Lm Hmax) as [Lp Wp].
       now apply refine_python_in_window. }
-    assert (Hout : forall l, Some (tail (tail_params sqrtf L im) (map (row_of sqrtf) outs)) = Some l ->
+    assert (Hout : forall l, Some (tail (tail_params sqrtf L im raw) (map (row_of sqrtf) outs)) = Some l ->
                    Forall (fun x => in_a_window (l_radius L) (shape im) (r_pos (snd (fst x))) /\
                                     inside_image (map inject_Z (shape im)) (r_pos (snd (fst x)))) l).
     { intros l El. injection El as <-. rewrite Forall_forall. intros x Hx.
@@ -261,5 +263,24 @@ Section Locate.
     destruct outs as [|o outs'].
     - injection H as <-. constructor.
     - destruct (negb (l_char L) && is_some (l_maxsize L)); [discriminate|]. now apply Hout.
+  Qed.
+
+  (* image.clip(min=0): no negative pixel is left, the shape is the raw image's *)
+  Lemma pix_clip0 : forall raw p, pix (clip0 raw) p = Z.max 0 (pix raw p).
+  Proof. intros. unfold pix, clip0. cbn [data]. now apply Proofs.Dilation.get_arr_map. Qed.
+
+  (* locate as it is now: every integer image, negative pixels included *)
+  Theorem locate_inside_image : forall L raw out,
+    Forall (fun r => 0 <= r) (l_radius L) ->
+    length (l_radius L) = length (shape raw) ->
+    length (l_sep L) = length (shape raw) -> length (l_smooth L) = length (shape raw) ->
+    (l_numba L = true -> (2 <= length (l_radius L))%nat /\ Forall (fun r => 1 <= r) (l_radius L)) ->
+    locate percentile sqrtf L raw = Some out ->
+    Forall (fun x => in_a_window (l_radius L) (shape raw) (r_pos (snd (fst x))) /\
+                     inside_image (map inject_Z (shape raw)) (r_pos (snd (fst x)))) out.
+  Proof.
+    intros L raw out Hr Lr Ls Lm Hn H. unfold locate in H.
+    apply (locate_on_inside_image L (clip0 raw) raw out); auto.
+    intros p. rewrite pix_clip0. lia.
   Qed.
 End Locate.
